@@ -24,7 +24,14 @@ func VsymC08_Truncate() {
 	for i := 0; i < n; i++ {
 		d := vsym_Int64("tsDelta")
 		vsym_Assume(vsym_And(d >= 0, d <= 63))
-		r := vsymRec{tsDelta: d, offDelta: int32(i), value: vsym_Bytes("value", 1)}
+		// offset deltas increase but need not be dense (a compacted or mirrored batch has gaps)
+		gap := vsym_Int32("offsetGap")
+		vsym_Assume(vsym_And(gap >= 0, gap <= 3))
+		od := gap
+		if i > 0 {
+			od = recs[i-1].offDelta + 1 + gap
+		}
+		r := vsymRec{tsDelta: d, offDelta: od, value: vsym_Bytes("value", 1)}
 		recs = append(recs, r)
 		area += len(vsymEncodeRecord(r))
 		ends = append(ends, area)
@@ -191,6 +198,59 @@ func VsymC08_Recover() {
 		seg, ok := base.objs[segmentObjectKey("ns", "dst", 0, 0)]
 		vsym_Assert(ok && len(seg) == 32+2*stride+16, "C08/records-not-later-than-restore-time-are-kept")
 	}
+}
+
+// S: collectRecoverableBatches over a whole segment of nb batches x 2 records whose timestamps
+// are symbolic and NOT monotone across batches (client-supplied CreateTime): the result is the
+// records before the first one later than the cutoff, in order, and nothing after the cut.
+func VsymC08_Collect() {
+	nb := vsym_Param("batches")
+	cutoff := vsym_Int64("cutoff")
+	vsym_Assume(vsym_And(cutoff >= 0, cutoff < 1<<40))
+	var body []byte
+	type rec struct {
+		ts  int64
+		off int64
+	}
+	var all []rec
+	var raws [][]byte
+	off := int64(10)
+	for b := 0; b < nb; b++ {
+		first := vsym_Int64("firstTs")
+		vsym_Assume(vsym_And(first >= 0, first < 1<<40))
+		d := vsym_Int64("tsDelta")
+		vsym_Assume(vsym_And(d >= 0, d <= 63))
+		raw := vsymEncodeBatch(off, first, []vsymRec{{tsDelta: 0, offDelta: 0, value: []byte{byte(2 * b)}}, {tsDelta: d, offDelta: 1, value: []byte{byte(2*b + 1)}}})
+		vsymPut64(raw, 35, uint64(first+d))
+		all = append(all, rec{first, off}, rec{first + d, off + 1})
+		raws = append(raws, raw)
+		body = append(body, raw...)
+		off += 2
+	}
+	seg := vsymWrapSegment(body, 10, off-1)
+	got, err := collectRecoverableBatches(seg, cutoff)
+	vsym_Assert(err == nil, "C08/well-formed-segment-accepted")
+	// reference: number of records before the first one later than the cutoff
+	k := 0
+	for k < len(all) && all[k].ts <= cutoff {
+		k++
+	}
+	vsym_Reach("collected")
+	kept := 0
+	for bi, rb := range got {
+		vsym_Assert(bi < nb && rb.BaseOffset == int64(10+2*bi), "C08/restored-batches-are-an-offset-contiguous-prefix")
+		vsym_Assert(rb.MessageCount >= 1 && rb.MessageCount <= 2 && rb.LastOffsetDelta == rb.MessageCount-1, "C08/parsed-metadata-consistent")
+		if rb.MessageCount == 1 {
+			vsym_Assert(bi == len(got)-1, "C08/only-the-last-restored-batch-is-cut")
+		}
+		kept += int(rb.MessageCount)
+		one := len(raws[bi]) - (len(raws[bi])-61)/2
+		if rb.MessageCount == 2 {
+			one = len(raws[bi])
+		}
+		vsym_Assert(len(rb.Bytes) == one && vsym_BytesEq(rb.Bytes[61:], raws[bi][61:one]), "C08/kept-records-byte-identical")
+	}
+	vsym_Assert(kept == k, "C08/restored-records-are-exactly-those-before-the-first-later-one")
 }
 
 func VsymC08_Twin() {
